@@ -10,6 +10,13 @@ func genC16(rt *rapid.T) *C16Spec {
 	fc := &fmtConfig{}
 	vc := &valConfig{maxDepth: 2}
 	c := genFmtCase(rt, fc, vc, []string{"print", "printf", "printf"}, 30)
+	if rapid.IntRange(0, 19).Draw(rt, "allredactable") == 7 {
+		// only redactable operands (strings and byte slices mixed)
+		c = &FmtCase{Route: "print"}
+		for i := rapid.IntRange(2, 4).Draw(rt, "nred"); i > 0; i-- {
+			c.Args = append(c.Args, &Val{K: pick(rt, "redk", []string{"rs", "rb", "rb"}), Pr: vc.genPrintSpec(rt, 1, false)})
+		}
+	}
 	for _, k := range regKindsAll {
 		if rapid.IntRange(0, 3).Draw(rt, "reg") == 0 {
 			c.Reg = append(c.Reg, k)
